@@ -9,6 +9,7 @@ package PKGNAME
 import (
 	"fmt"
 	"math/rand"
+	"reflect"
 	"sort"
 	"strings"
 	"time"
@@ -705,8 +706,13 @@ func vRunTrigCase(c *vCase, prop string) {
 			bad := TriggerState{EdgeMulti: true, EdgeRising: true, EdgeLevel: 10}
 			bad.EMTState.nmonotone = int32(cur.nsamp + 100)
 			for ch := 0; ch < nchan; ch++ {
+				before := f.ds.processors[ch].TriggerState
 				if err := f.ds.ChangeTriggerState(&FullTriggerState{ChannelIndices: []int{ch}, TriggerState: bad}); err == nil {
 					c.Inconclusive("setup", "ChangeTriggerState accepted edge-multi settings with nmonotone > post-trigger length; the epoch model does not cover that")
+					return
+				}
+				if after := f.ds.processors[ch].TriggerState; !reflect.DeepEqual(before, after) {
+					c.Violate("c01:refused-request-changed-settings", "channel %d: a trigger request was refused (edge-multi with nmonotone %d > post-trigger length), but the channel's trigger settings changed from %+v to %+v", ch, bad.EMTState.nmonotone, before, after)
 					return
 				}
 			}
